@@ -281,6 +281,7 @@ where
     drop(leaver);
     let mut joiner = None;
     tokio::time::sleep(Duration::from_millis(1000)).await;
+    let size_probe = encoder.clone();
     let mut b = pub_client.publisher(topic).with_encoder(encoder);
     if let Some((kind, level)) = spec.comp {
         b = b.with_compression(make_comp(kind, level));
@@ -368,6 +369,13 @@ where
                     Err(e) => {
                         rep.refused += 1;
                         rep.notes.push(format!("send {i} refused: {e}"));
+                        // a refusal has to have a reason: an item whose encoding is far below the
+                        // frame limit (no transform grows data by a tenth) is owed acceptance
+                        let text = e.to_string();
+                        let size = size_probe.encode(it.clone()).map(|b| b.len()).unwrap_or(usize::MAX);
+                        if size <= 900_000 && (text.contains("Payload size") || text.contains("greater than maximum")) {
+                            rep.mismatches.push(("legal-item-refused".into(), format!("{:?}", spec.batching.is_some()), format!("item {i}, {size} bytes once encoded, was refused by the publisher: {text} (spec: codec {:?} comp {:?} batching {:?} pattern {:?})", spec.codec, spec.comp, spec.batching, spec.pattern)));
+                        }
                     }
                 }
             }
